@@ -62,6 +62,12 @@ PRELUDES = {
     "nested-invoke-twice": "frame:preprocess('{{#invoke:echo|f|a}}"
                            "{{#invoke:echo|f|b}}')",
     "nested-error": "frame:preprocess('{{#invoke:bad|err}}')",
+    # a nested invocation that itself runs into the limit; the outer code
+    # gets its in-band error text back and goes on (into BODY)
+    "nested-timeout": "frame:preprocess('{{#invoke:bad|loop}}')",
+    "nested-timeout-pcall": "pcall(function() frame:preprocess("
+                            "'{{#invoke:bad|loop}}') end)",
+    "nested-timeout-template": "frame:expandTemplate{ title = 'tloopinv' }",
 }
 
 
@@ -93,6 +99,7 @@ def child(body, wrapper, prelude):
     lua_modules.install(ctx)
     ctx.add_page("Module:prog", 828, program(body, wrapper, prelude),
                  model="Scribunto")
+    ctx.add_page("Template:tloopinv", 10, "{{#invoke:bad|loop}}")
     title = "Timeout page"
     ctx.start_page(title)
     # warm-up: Lua start-up is not part of the limit
@@ -239,7 +246,7 @@ def run(run):
     run.exhaustive = run.tier != "quick"
     run.extra["programs_in_product"] = len(BODIES) * len(WRAPPERS) * len(PRELUDES)
     run.rule = (
-        f"Programs = {len(PRELUDES)} preludes x {len(BODIES)} bodies x "
+        f"Programs = {len(PRELUDES)} preludes (incl. nested invocations that are benign, erroring or themselves timing out) x {len(BODIES)} bodies x "
         f"{len(WRAPPERS)} wrappers ({len(BODIES) * len(WRAPPERS) * len(PRELUDES)}"
         " programs; thorough runs all, quick runs every body bare, every "
         "wrapper and every prelude on the plain loop, plus 14 seeded random "
